@@ -333,6 +333,50 @@ def run(tier, seed):
                     case["changed"], case["table_writes"] = changed, sorted(allowed)
                     run.fail(case, "correspondence: module-level state changed that the effect table does not list as written",
                              kind="correspondence")
+        # ---- the same schema *object* handed to consecutive calls and modified in place in between: the
+        # result must be that of the object's current content (i.e. of a copy of it in a fresh interpreter)
+        from fastavro.utils import generate_one
+        for h in range(scale(tier, 40)):
+            rr = random.Random(seed * 99991 + h)
+            obj = {"type": "record", "name": "Same", "fields": [{"name": "a", "type": rr.choice(["int", "string", "boolean"])},
+                                                                  {"name": "b", "type": rr.choice(["long", "double"])}]}
+            for step in range(3):
+                for op in ("generate", "canon", "write"):
+                    spec = {"op": op, "schema": obj}
+                    if op == "generate":
+                        spec["seed"] = h
+                    if op == "write":
+                        random.seed(h)
+                        try:
+                            spec["value"] = generate_one(copy.deepcopy(obj))
+                        except Exception:
+                            continue
+                    # the object itself (not a copy) goes to the call
+                    try:
+                        if op == "generate":
+                            random.seed(spec["seed"])
+                            got = {"ok": canon(to_wire(generate_one(obj)))}
+                        elif op == "canon":
+                            got = {"ok": to_parsing_canonical_form(obj)}
+                        else:
+                            fo = io.BytesIO()
+                            schemaless_writer(fo, obj, spec["value"])
+                            got = {"ok": fo.getvalue().hex()}
+                    except Exception as e:  # noqa
+                        got = {"err": exc_class(e)}
+                    fresh = pristine.call(copy.deepcopy(spec))
+                    run.cov["evaluations"] += 1
+                    run.tag("same-object:" + op)
+                    if got != fresh:
+                        run.fail({"schema_now": copy.deepcopy(obj), "op": op, "step": step, "after_history": got, "fresh": fresh,
+                                  "tags": ["same-object", op]},
+                                 "a schema object modified in place between two calls: the second call does not see its current content",
+                                 kind="oracle")
+                # in-place modification
+                f = rr.choice(obj["fields"])
+                f["type"] = rr.choice([t for t in ("int", "string", "boolean", "long", "double", "bytes") if t != f["type"]])
+                if rr.random() < 0.5:
+                    obj["fields"].append({"name": "n%d" % step, "type": "int"})
     finally:
         pristine.close()
     return run.finish()
